@@ -10,7 +10,7 @@ Tie: (a) generated frame/framer link structures (over links, under links, clone 
      (b) the generated table is the working tree's: a changed source regenerates it and can break the table theorems.
 Oracle (independent of the model) and search: grammar-aware random scripts, token- and line-level mutations of
        generated programs and of the example plans, each built under a wall-clock limit enforced with a non-OSError
-       exception; a build must return (True/False) or raise an ioflo script error (excepting.*) or a literal
+       exception; a build must return (True/False) or raise ParseError / ResolveError or a literal
        converter's ValueError. Anything else — TypeError, NameError, KeyError, IndexError, …, or no return — is a
        failing input, attributed to a known finding only through the Lean table `knownCrashSites`."""
 import json, os, sys, traceback, itertools, random
@@ -55,13 +55,11 @@ def outcome(text, limit):
 
 def acceptable(cls, fn, detail):
     """the outcomes the property allows"""
-    core.import_ioflo()
-    from ioflo.base import excepting
     if cls in ("ok", "failed"):
         return True
     if cls == "ValueError":
         return detail == "converter"
-    return hasattr(excepting, cls)          # ParseError, ResolveError, ParameterError, CloneError, … : script errors
+    return cls in ("ParseError", "ResolveError")
 
 
 # ---- link structures
